@@ -1,8 +1,10 @@
 #!/bin/sh
-# regenerate lean/LiskVerif/Gen/SyncPaths.lean (validate / processor / append sites of pkg/consensus/sync, C03) from /repo
+# regenerate lean/LiskVerif/Gen/SyncPaths.lean (validate / processor / append sites of pkg/consensus/sync, C03) and
+# lean/LiskVerif/Gen/SyncCtxSrc.lean (field sources of the sync context, C19) from /repo
 set -e
 cd "$(dirname "$0")"
 export GOFLAGS=-mod=mod GOPROXY=off GOSUMDB=off GOTOOLCHAIN=local
 mkdir -p ../../.build ../../lean/LiskVerif/Gen
 go build -o ../../.build/syncpathgen .
-../../.build/syncpathgen -repo "${VERIF_REPO:-/repo}" -out ../../lean/LiskVerif/Gen/SyncPaths.lean
+# -ctxout: sources of the sync context handed to the synchronisers (Executer.createSyncContext, C19) -> Gen/SyncCtxSrc.lean
+../../.build/syncpathgen -repo "${VERIF_REPO:-/repo}" -out ../../lean/LiskVerif/Gen/SyncPaths.lean -ctxout ../../lean/LiskVerif/Gen/SyncCtxSrc.lean
